@@ -86,6 +86,10 @@ def hostile_corpus():
         'symbol cycle through unary in .org': '.equ base = -base\n.org base\n nop',
         'symbol cycle through a right operand': '.equ a = 1 - (2 * a)\n ldi r16, a',
         'symbol cycle through function argument expression': '.equ a = high(b << 1)\n.equ b = low(-a)\n .db a',
+        # … and through BOTH operands of one operator (the depth guard bounds the depth; the work must stay bounded too)
+        'symbol cycle on both sides': '.equ a = a + a\n ldi r16, a',
+        'symbol cycle on both sides, functions': '.equ w = low(w) | high(w) << 8\n .dw w',
+        'symbol cycle on both sides, mutual': '.equ size = count*2\n.equ count = size/2 + size%2\n .db size',
         'symbol cycle through .set of an .equ': '.equ a = -c\n.equ c = ~a\n.set v = a\n ldi r16, v',
         'symbol chain 200': '\n'.join(['.equ s0 = 1'] + ['.equ s%d = s%d + 1' % (i, i - 1) for i in range(1, 200)] + [' .dw s199']),
         'set self reference': '.set v = v + 1\n .dw v',
